@@ -890,6 +890,14 @@ int EGLPNUM_TYPENAME_ILLsimplex (
 	}
 	EGLPNUM_TYPENAME_ILLfct_set_variable_type (lp);
 
+	/* the steepest edge norms of the other algorithm are not maintained by this
+	 * solve: what an earlier solve left behind describes another basis (and
+	 * possibly fewer rows or columns) */
+	if (it.algorithm == PRIMAL_SIMPLEX)
+		EGLPNUM_TYPENAME_EGlpNumFreeArray (pinf->dsinfo.norms);
+	else if (it.algorithm == DUAL_SIMPLEX)
+		EGLPNUM_TYPENAME_EGlpNumFreeArray (pinf->psinfo.norms);
+
 	if (B != 0)
 	{
 		rval = EGLPNUM_TYPENAME_ILLbasis_load (lp, B);
